@@ -77,8 +77,10 @@ def run_checks_rule(chk: Check, rule: str) -> None:
     fn = chk.project.func("checks.py:run_checks")
     tries = [n for n in walk_body(fn.node) if isinstance(n, ast.Try)]
     target = None
+    # the loop variable ranging over the `checks` parameter is what gets called inside the try
+    loop_vars = {lp.target.id for lp in walk_body(fn.node) if isinstance(lp, ast.For) and isinstance(lp.target, ast.Name) and "checks" in names_in(lp.iter)}
     for t in tries:
-        if any(isinstance(c.func, ast.Name) and c.func.id == "check" for s in t.body for c in calls(s)):
+        if any(isinstance(c.func, ast.Name) and c.func.id in loop_vars for s in t.body for c in calls(s)):
             target = t
     if target is None:
         raise Undecided("try around check(ctx, response, case) not found in run_checks")
